@@ -53,10 +53,10 @@ Section RefTree.
 
   Definition ref_grep (b : bool) (t : RGT) (hs : list (option A)) : Prop := t = hs.
 
-  Theorem ref_gtree_ok : gtree_ok ltb (@rgt_init A) (rgt_min ltb) (rgt_dmi ltb) ref_grep.
+  Theorem ref_gtree_ok : gtree_ok ltb (fun _ => True) (@rgt_init A) (rgt_min ltb) (rgt_dmi ltb) ref_grep.
   Proof.
     constructor.
-    - reflexivity.
+    - intros; reflexivity.
     - intros b t hs -> Hlive. destruct (ref_min_some hs Hlive) as (s & x & E).
       unfold rgt_min. rewrite E. destruct (ref_min_spec _ _ _ E) as (Hn & Hmin & Hst).
       exists x. split; [exact Hn|]. split; [exact Hmin|]. intros _. exact Hst.
@@ -65,10 +65,10 @@ Section RefTree.
 
   Definition ref_urep (b : bool) (t : RUT) (sen : A) (hs : list A) : Prop := t = (b, sen, hs).
 
-  Theorem ref_utree_ok : utree_ok ltb (@rut_init A) (rut_min ltb) (rut_dmi ltb) ref_urep.
+  Theorem ref_utree_ok : utree_ok ltb (fun _ => True) (fun _ _ => True) (@rut_init A) (rut_min ltb) (rut_dmi ltb) ref_urep.
   Proof.
     constructor.
-    - reflexivity.
+    - intros; reflexivity.
     - intros b t sen hs -> (s0 & x0 & E0 & Hb).
       destruct (ref_min_some (map Some hs)) as (s & x & E).
       { exists s0, x0. rewrite nth_error_map, E0. reflexivity. }
@@ -82,7 +82,7 @@ Section RefTree.
         * assert (K : ltb x sen = true) by (apply (leb_ltb_trans _ H x x0 sen); auto; unfold leb; now rewrite Hx0).
           now rewrite K.
       + exists x. split; [exact Hn|]. split; [exact Hmin|]. intros _. exact Hst.
-    - intros b t sen hs v s -> Em. unfold rut_min in Em. unfold rut_dmi, ref_urep.
+    - intros b t sen hs v s -> Em _. unfold rut_min in Em. unfold rut_dmi, ref_urep.
       destruct (ref_min_opt ltb (map Some hs)) as [[s' x']|]; [|discriminate].
       destruct b; [destruct (ltb sen x')|destruct (ltb x' sen)]; inversion Em; subst; reflexivity.
   Qed.
